@@ -74,6 +74,12 @@ PROJECTS = [
      "main": "a.gdn", "run_contains": ["b_secret"], "run_not_contains": ["7"], "check_contains": ["b_secret"]},
     {"what": "a private fun reached from a file that is in a cycle with its owner (b -> c -> b), checked from c", "files": {"a.gdn": "import \"./b.gdn\" as b\nprintln(string_repr(b::fb()))\n", "b.gdn": "import \"./c.gdn\" as c\npublic fun fb(): Int { 1 }\nfun b_secret(): Int { 7 }\n", "c.gdn": "import \"./b.gdn\"\npublic fun fc(): Int { b_secret() }\n"},
      "main": "c.gdn", "cmds": ["check"], "check_contains": ["b_secret"]},
+    {"what": "a name defined public first and private later in the imported file (the later definition is the live one), through an alias", "files": {"shapes.gdn": "public fun scale(n: Int): Int { n * 2 }\nfun scale(n: Int): Int { n * 1000 }\n", "main.gdn": "import \"./shapes.gdn\" as shapes\nprintln(string_repr(shapes::scale(3)))\n"},
+     "main": "main.gdn", "run_not_contains": ["3000"], "check_contains": ["scale"]},
+    {"what": "the same, imported unqualified", "files": {"shapes.gdn": "public fun scale(n: Int): Int { n * 2 }\nfun scale(n: Int): Int { n * 1000 }\n", "main.gdn": "import \"./shapes.gdn\"\nprintln(string_repr(scale(3)))\n"},
+     "main": "main.gdn", "run_not_contains": ["3000"], "check_contains": ["scale"]},
+    {"what": "a name defined private first and public later", "files": {"shapes.gdn": "fun scale(n: Int): Int { n * 1000 }\npublic fun scale(n: Int): Int { n * 2 }\n", "main.gdn": "import \"./shapes.gdn\" as shapes\nprintln(string_repr(shapes::scale(3)))\n"},
+     "main": "main.gdn", "cmds": ["run"], "run_contains": ["6"]},
     {"what": "a cycle of three files with aliases", "files": {"a.gdn": "import \"./b.gdn\" as b\npublic fun fa(): Int { 1 }\nprintln(string_repr(b::fb()))\n", "b.gdn": "import \"./c.gdn\" as c\npublic fun fb(): Int { c::fc() + 1 }\n", "c.gdn": "import \"./a.gdn\" as a\npublic fun fc(): Int { 5 }\n"},
      "main": "a.gdn", "cmds": ["check"]},
     {"what": "the same missing file imported twice", "files": {"main.gdn": "import \"./nope.gdn\"\nimport \"./nope.gdn\" as n\nprintln(\"x\")\n"}, "main": "main.gdn", "cmds": ["check"], "check_contains": ["No such file"]},
